@@ -33,13 +33,13 @@ Proof.
 Qed.
 
 (* the obligations over the generated tables: closed by kernel evaluation of verified checkers *)
-Lemma meta_wf : auto_wf l_meta = true. Proof. vm_compute. reflexivity. Qed.
-Lemma meta_closed : closed_check l_meta = true. Proof. vm_compute. reflexivity. Qed.
-Lemma meta_plain : plain_check l_meta = true. Proof. vm_compute. reflexivity. Qed.
+Lemma meta_wf : auto_wf l_meta = true. Proof. vm_cast_no_check (eq_refl true). Qed.
+Lemma meta_closed : closed_check l_meta = true. Proof. vm_cast_no_check (eq_refl true). Qed.
+Lemma meta_plain : plain_check l_meta = true. Proof. vm_cast_no_check (eq_refl true). Qed.
 Lemma meta_pairs_count : List.length meta_pairs = 40. Proof. vm_compute. reflexivity. Qed.
-Lemma meta_pairs_defined : all_defined l_meta meta_pairs = true. Proof. vm_compute. reflexivity. Qed.
+Lemma meta_pairs_defined : all_defined l_meta meta_pairs = true. Proof. vm_cast_no_check (eq_refl true). Qed.
 Lemma meta_eq_rfc : lang_eq_check (of_list l_meta) (of_list l_rfc) meta_pairs 60 = true.
-Proof. vm_compute. reflexivity. Qed.
+Proof. vm_cast_no_check (eq_refl true). Qed.
 Lemma rfc_text_reads : match r_rfc tt with Some R => List.length (objs R) = 40 | None => False end.
 Proof. vm_compute. reflexivity. Qed.
 
